@@ -322,8 +322,13 @@ func drawString(t *rapid.T) string {
 	switch rapid.IntRange(0, 11).Draw(t, "strcls") {
 	case 0, 1:
 		return ""
-	case 2, 3:
+	case 2:
 		return "a"
+	case 3:
+		// a small family of short strings that differ only in trailing or embedded NUL bytes or are prefixes of one
+		// another: whatever compares, hashes, pads or interns strings must keep them apart
+		fam := []string{"\x00", "a\x00", "ab", "ab\x00", "ab\x00\x00", "key", "key\x00", "\x00ab", "abcdefgh", "abcdefgh\x00", "abcdefghi"}
+		return fam[rapid.IntRange(0, len(fam)-1).Draw(t, "nulstr")]
 	case 4, 5:
 		return strings.Repeat("x", rapid.IntRange(120, 140).Draw(t, "longstr"))
 	case 6:
@@ -348,7 +353,7 @@ func drawString(t *rapid.T) string {
 
 func drawMapKey(t *rapid.T, fd protoreflect.FieldDescriptor) protoreflect.MapKey {
 	if fd.Kind() == protoreflect.StringKind {
-		return protoreflect.ValueOfString([]string{"", "k1", "k2", "key-three"}[rapid.IntRange(0, 3).Draw(t, "mkey")]).MapKey()
+		return protoreflect.ValueOfString([]string{"", "k1", "k2", "key-three", "key", "key\x00"}[rapid.IntRange(0, 5).Draw(t, "mkey")]).MapKey()
 	}
 	return drawScalar(t, fd).MapKey()
 }
